@@ -73,6 +73,9 @@ func runC19(c *engine.Ctx, tier string) {
 	pollAndRelay(c)
 	monitorStarted(c)
 	subscriptionOwnsItsBackingClient(c)
+	noEntryDropped(c)
+	relaySerialised(c)
+	refusalsCarryTheirClass(c)
 }
 
 func subPaths(c *engine.Ctx, root string) ([]*engine.Path, error) {
@@ -533,5 +536,143 @@ func subscriptionOwnsItsBackingClient(c *engine.Ctx) {
 	}
 	if !found {
 		o.Undecided("southbound/gnmi.client.Subscribe", "anchor not found: no call of a backing Client.Subscribe")
+	}
+}
+
+// noEntryDropped: C19.7 (finding F65). Every entry of the subscription list is appended to the request of some
+// target, or the request is refused: no iteration of the split loop falls through having done neither.
+func noEntryDropped(c *engine.Ctx) {
+	o := c.Custom("C19.7", "K-must(per entry)", "splitSubscribeRequest: every iteration of the loop over the subscription entries appends the entry to a per-target request or returns an error",
+		"every subscription entry is forwarded to the target it names; an entry that names no target is refused, not dropped from an accepted request")
+	defer o.Done(1)
+	ps, err := c.A.PathsOpt(pkgNbGnmi, engine.PathOpts{Roots: []string{".splitSubscribeRequest"}, NoInline: true})
+	if err != nil {
+		o.Undecided("splitSubscribeRequest", err.Error())
+		return
+	}
+	for _, p := range ps {
+		for i := range p.Events {
+			le := &p.Events[i]
+			if le.Kind != engine.EvLoopEnter || !strings.Contains(le.Range, "Subscription") {
+				continue
+			}
+			appended, left, iterated, exit := false, false, false, -1
+			for j := i + 1; j < len(p.Events); j++ {
+				e := &p.Events[j]
+				if e.Kind == engine.EvLoopExit && e.Node == le.Node {
+					exit = j
+					break
+				}
+				iterated = true
+				if e.Kind == engine.EvWrite && e.Field == "gnmi.SubscriptionList.Subscription" && strings.HasPrefix(e.RHS, "append(") && strings.Contains(e.RHS, "elem("+le.Range+")") {
+					appended = true
+				}
+				if e.Kind == engine.EvReturn {
+					left = len(e.Results) == 1 && e.Results[0] != "nil"
+				}
+			}
+			if !iterated || (exit < 0 && !left && !appended && p.Events[len(p.Events)-1].Kind != engine.EvReturn) {
+				continue
+			}
+			o.Site(c.P.Pos(le.Pos) + " iteration of the split loop")
+			o.Eval(1)
+			if !appended && !left {
+				o.Fail(&engine.Violation{Key: "splitSubscribeRequest|entry neither forwarded nor refused", Pos: c.P.Pos(le.Pos), Func: p.Root.Name(),
+					Msg: "an iteration of the loop over the subscription entries neither appends the entry to a target's request nor refuses the request: the entry is silently dropped", Found: c.RenderConds(engine.CondsBefore(p, len(p.Events)-1))})
+				return
+			}
+		}
+	}
+}
+
+// relaySerialised: C19.8 (finding F66). The response handlers of the per-target monitors write to the one
+// northbound stream: every such Send happens while a mutex of the stream's context is held.
+func relaySerialised(c *engine.Ctx) {
+	o := c.Custom("C19.8", "K-lock(stream send)", "in the function literals of the Subscribe handlers, GNMI_SubscribeServer.Send on the subscriber's stream is preceded on its path by Lock of a sync.Mutex of the same stream context (released by a deferred or later Unlock)",
+		"updates from each target are relayed as received: one monitor goroutine per target calls Send on the same server stream, which gRPC does not allow concurrently")
+	defer o.Done(1)
+	ps, err := c.A.PathsOpt(pkgNbGnmi, engine.PathOpts{Roots: []string{".Server.sendSubscriptionRequest"}, NoInline: true})
+	if err != nil {
+		o.Undecided("sendSubscriptionRequest", err.Error())
+		return
+	}
+	for _, p := range ps {
+		if p.Lit == nil {
+			continue
+		}
+		for i := range p.Events {
+			e := &p.Events[i]
+			if e.Kind != engine.EvCall || !strings.HasSuffix(e.CalleeName, "GNMI_SubscribeServer.Send") {
+				continue
+			}
+			o.Site(c.P.Pos(e.Pos) + " Send on " + e.Recv)
+			o.Eval(1)
+			base := e.Recv
+			if k := strings.LastIndex(base, "."); k > 0 {
+				base = base[:k] // the context that holds the stream
+			}
+			held := false
+			for j := 0; j < i; j++ {
+				x := &p.Events[j]
+				if x.Kind == engine.EvCall && !x.Deferred && strings.HasPrefix(x.Recv, base+".") {
+					if strings.HasSuffix(x.CalleeName, "Mutex.Lock") {
+						held = true
+					}
+					if strings.HasSuffix(x.CalleeName, "Mutex.Unlock") {
+						held = false
+					}
+				}
+			}
+			if !held {
+				o.Fail(&engine.Violation{Key: "Server.sendSubscriptionRequest|unserialised Send on the subscriber's stream", Pos: c.P.Pos(e.Pos), Func: p.Root.Name(),
+					Msg: "a response handler sends on " + e.Recv + " without holding a mutex of " + base + ": the monitors of several targets call Send on one stream concurrently"})
+				return
+			}
+		}
+	}
+}
+
+// refusalsCarryTheirClass: C19.9 (finding F67). What Server.Subscribe returns is nil, the stream's own receive
+// error, or a typed error converted with errors.Status(err).Err() — as Get, Set and Capabilities do.
+func refusalsCarryTheirClass(c *engine.Ctx) {
+	o := c.Custom("C19.9", "K-domain(handler result)", "Server.Subscribe returns nil, the error of stream.Recv itself, or errors.Status(e).Err()",
+		"a refused request is refused with its class: a typed error returned as is reaches the client as gRPC Unknown")
+	defer o.Done(1)
+	ps, err := c.A.PathsOpt(pkgNbGnmi, engine.PathOpts{Roots: []string{"northbound/gnmi/v2.Server.Subscribe"}, Exact: true})
+	if err != nil || len(ps) == 0 {
+		o.Undecided("Server.Subscribe", fmt.Sprintf("no paths: %v", err))
+		return
+	}
+	reported := map[string]bool{}
+	for _, p := range ps {
+		if p.Lit != nil {
+			continue
+		}
+		last := &p.Events[len(p.Events)-1]
+		if last.Kind != engine.EvReturn || len(last.Results) != 1 || last.Results[0] == "nil" {
+			continue
+		}
+		r := last.Results[0]
+		o.Eval(1)
+		if strings.HasPrefix(r, "err({errors.Status(") && strings.HasSuffix(r, "}status.Status.Err())") {
+			o.Site("converted refusal")
+			continue
+		}
+		own := false
+		for i := range p.Events {
+			e := &p.Events[i]
+			if e.Kind == engine.EvCall && strings.HasSuffix(e.CalleeName, "GNMI_SubscribeServer.Recv") && r == "err("+e.Canon+")" {
+				own = true
+			}
+		}
+		if own {
+			o.Site("the stream's own receive error")
+			continue
+		}
+		if !reported[r] {
+			reported[r] = true
+			o.Fail(&engine.Violation{Key: "Server.Subscribe|typed error returned unconverted", Pos: c.P.Pos(last.Pos), Func: p.Root.Name(),
+				Msg: "Subscribe returns " + c.Render(r) + " without errors.Status(…).Err(): the client sees gRPC Unknown instead of the refusal's class"})
+		}
 	}
 }
